@@ -35,6 +35,8 @@ def one(req):
             blk = D.build(req["desc"]).block
         exps = O.synth(blk, req["n"], req["strategy"])
         return {"ok": exps}
+    except O.CallTimeout:                       # the in-process wall-clock limit of O.synth (a loaded machine)
+        return {"timeout": True}
     except Exception as e:                      # reported to the parent, which decides what it means
         return {"exc": type(e).__name__, "msg": str(e)[:300]}
 
